@@ -1,7 +1,7 @@
 (* Extract.v — extraction of the executable models to OCaml (ExtrOcamlBasic only;
    N/Z/positive/nat stay Coq datatypes; no Extract Constant). Run from the output dir. *)
 From Coq Require Import Extraction ExtrOcamlBasic.
-From KV Require Import Bytes WalCodec.
+From KV Require Import Bytes WalCodec Memtable Engine.
 Extraction Language OCaml.
 Set Extraction Output Directory ".".
 Separate Extraction
@@ -9,4 +9,7 @@ Separate Extraction
   WalCodec.replay_file WalCodec.replay_dir WalCodec.dir_status WalCodec.entries_from
   WalCodec.encode_log WalCodec.encode_entry WalCodec.encode_batch
   WalCodec.wal_append WalCodec.wal_append_batch WalCodec.wal_append_seq
-  WalCodec.wal_new_file WalCodec.wal_update_next WalCodec.canon WalCodec.wf_entry.
+  WalCodec.wal_new_file WalCodec.wal_update_next WalCodec.canon WalCodec.wf_entry
+  Memtable.mt_iter_entries Memtable.seek_ge
+  Engine.init Engine.put Engine.del Engine.apply_batch Engine.tx_commit Engine.get Engine.flush
+  Engine.reopen Engine.run Engine.buffer_ops.
